@@ -214,12 +214,20 @@ func recordTokens(text string) (toks []string, final string) {
 	}
 }
 
+var jsonReads int
+
 func readJsonImpl(text string) (out string) {
 	defer func() {
 		if r := recover(); r != nil {
 			out = fmt.Sprintf("PANIC %v", r)
 		}
 	}()
+	jsonReads++
+	if jsonReads%5 == 0 {
+		if c, err := xsel.ReadJson(&failingReader{data: []byte(`{"stale": [1, {"lost": `)}); err == nil {
+			return fmt.Sprintf("ACCEPTED an input whose reader failed (cursor nil: %v)", c == nil)
+		}
+	}
 	c, err := xsel.ReadJson(bytes.NewReader([]byte(text)))
 	if err != nil {
 		return "E"
